@@ -321,6 +321,20 @@ MUTANTS = [
     m("C18-silent-declare-copies-set", "C18", "", ANN, "        new_obj.annotations = obj.annotations | {self}", "        new_obj.annotations = set(obj.annotations) | {self}", silent=True),
     m("C12-reciprocal-of-guard", "C12", "finite-reciprocal@do_safe_div", CG, "    output = num / denom\n    return output", "    output = num * (1.0 / denom)\n    return output"),
     m("C12-silent-division-by-guard", "C12", "", CG, "    output = num / denom\n    return output", "    output = num / (1.0 * denom)\n    return output", silent=True),
+    # ---- rules added after the sixth round of seeded changes
+    m("C01-kernel-uniform-last-block", "C01", "tiling@Kernel._matmat", OPS, "            fit1 = None if idx + 1 == self.iters1 else (idx + 1) * self.block_size1", "            fit1 = (idx + 1) * self.block_size1"),
+    dict(id="C01-silent-kernel-ceil-blocks", property="C01", expect="", silent=True, edits=[
+        dict(file=OPS, old="            fit1 = None if idx + 1 == self.iters1 else (idx + 1) * self.block_size1", new="            fit1 = (idx + 1) * self.block_size1"),
+        dict(file=OPS, old="        self.iters1 = self.shape[0] // block_size1", new="        self.iters1 = -(-self.shape[0] // block_size1)")]),
+    m("C15-runner-early-exit", "C15", "runner-transparency@while_loop_winfo", TQ, "            info['iterations'] += 1\n            return cond_fun(state)",
+      "            info['iterations'] += 1\n            if error <= tol:\n                return False\n            return cond_fun(state)"),
+    m("C15-silent-runner-result-local", "C15", "", TQ, "            info['iterations'] += 1\n            return cond_fun(state)",
+      "            info['iterations'] += 1\n            keep_going = cond_fun(state)\n            return keep_going", silent=True),
+    m("C17-stale-probe-alias", "C17", "probe-consistency@hutchinson_diag_estimate", DEST, "        z = xnp.randn(A.shape[0], bs, dtype=A.dtype, key=key, device=A.device)\n        if rand == 'rademacher':\n            z = xnp.sign(z)\n        z2 = xnp.roll(z, -k, 0)",
+      "        z = raw = xnp.randn(A.shape[0], bs, dtype=A.dtype, key=key, device=A.device)\n        if rand == 'rademacher':\n            z = xnp.sign(z)\n        z2 = xnp.roll(raw, -k, 0)"),
+    m("C17-silent-probe-alias-after-sign", "C17", "", DEST, "        z = xnp.randn(A.shape[0], bs, dtype=A.dtype, key=key, device=A.device)\n        if rand == 'rademacher':\n            z = xnp.sign(z)\n        z2 = xnp.roll(z, -k, 0)",
+      "        z = xnp.randn(A.shape[0], bs, dtype=A.dtype, key=key, device=A.device)\n        if rand == 'rademacher':\n            z = xnp.sign(z)\n        probes = z\n        z2 = xnp.roll(probes, -k, 0)", silent=True),
+    m("C01-operand-cast-to-operator-dtype", "C01", "operand-cast@Dense._matmat", OPS, "        return self.xnp.cast(self.A, dtype) @ self.xnp.cast(X, dtype)", "        return self.xnp.cast(self.A, dtype) @ self.xnp.cast(X, self.dtype)"),
     m("C19-sliced-densifies-parent", "C19", "matrix-free-product@Sliced.to_dense:parent", OPS, "    def __str__(self):\n        has_length = hasattr(self.slices[0], '__len__')", "    def to_dense(self):\n        return self.A.to_dense()[self.slices[0]][:, self.slices[1]]\n\n    def __str__(self):\n        has_length = hasattr(self.slices[0], '__len__')"),
 ]
 
